@@ -38,7 +38,7 @@ margin     := ('margin', '@top-left', items)
 items      := (item, ...);  item := ('decl', name, value, important: bool) | ('comment', text)
 value      := ((sep, component), ...)   sep of the first is None, else ' ' | ',' | '/'
 component  := ('ident', text) | ('number', dec) | ('dimension', dec, unit) | ('percentage', dec) | ('string', content)
-            | ('url', content) | ('hash', hexdigits) | ('function', name, value) | ('calc', (operand, op, operand, ...)) | ('urange', text)
+            | ('url', content) | ('hash', hexdigits) | ('function', name, value) | ('calc', (operand, op, operand, ...)) | ('urange', text) | ('var', name)
               dec is a canonical decimal text ('-1.5', '10', '0.25'); calc operands are number/dimension/percentage components, op in + - * /
 selector   := ((combinator, compound), ...)  combinator of the first is None, else ' ' | '>' | '+' | '~'
 compound   := (typesel|None, (simple, ...));  typesel := (nsprefix, name|'*'), nsprefix in None (none written) | '' ('|a') | '*' | declared prefix
@@ -529,6 +529,9 @@ def _component(c, cx, in_value=True):
         return ['#' + cx.case(c[1], 'hex')]
     if k == 'urange':
         return [cx.case(c[1], 'hex')]
+    if k == 'var':
+        # var() is a function of its own in cssutils (CSSVariable); its name follows the 'function' part of the spelling
+        return [cx.name('var', 'function') + '(', O('function'), c[1], O('function'), ')']
     if k == 'function':
         p = [cx.name(c[1], 'colorfn' if c[1] in _COLORFNS else 'function') + '(', O('function')]
         p += _value(c[2], cx, 'function')
@@ -1345,12 +1348,20 @@ COMPONENTS = [
     ('function', _fn('counter', _i('a'), ',', _i('b'))), ('function', _fn('attr', _i('x'))), ('function', _fn('f', _fn('g', _n('1')))),
     ('function', _fn('format', _s('woff'))), ('function', _fn('local', _i('x'))), ('function', _fn('f', _u('x'), ',', _d('1', 'px'), ('hash', 'abc'))),
     ('function', _fn('f', _i('a'), '/', _i('b'))),
+    # calc() with each operator and var() as arguments of another function (depth 2), first / middle / last argument
+    ('function-calc', _fn('translate', ('calc', (_p('100'), '-', _d('10', 'px'))), ',', _n('0'))),
+    ('function-calc', _fn('min', _d('10', 'em'), ',', ('calc', (_p('50'), '+', _d('2', 'px'))))),
+    ('function-calc', _fn('f', _i('a'), ('calc', (_d('1', 'px'), '*', _n('2'))), _i('b'))),
+    ('function-calc', _fn('f', ('calc', (_d('1', 'em'), '/', _n('2'))))),
+    ('function-calc', _fn('f', _fn('g', ('calc', (_d('1', 'px'), '+', _d('2', 'px'), '-', _d('3', 'px')))), ',', ('calc', (_d('1', 'px'),)))),
+    ('function-var', _fn('f', ('var', 'y'))), ('function-var', _fn('min', _d('1', 'px'), ',', ('var', 'y'), ',', ('calc', (('var', 'z'), '+', _d('1', 'px'))))),
+    ('var', ('var', 'y')), ('var', ('var', 'Some-Name')),
     ('calc', ('calc', (_d('1', 'px'), '+', _d('2', 'px')))), ('calc', ('calc', (_d('1', 'px'), '*', _n('2')))), ('calc', ('calc', (_p('100'), '-', _d('10', 'px')))),
     ('calc', ('calc', (_d('1', 'em'), '/', _n('2')))), ('calc', ('calc', (_d('1', 'px'), '+', _d('2', 'em'), '*', _n('3')))), ('calc', ('calc', (_d('1', 'px'),))),
     ('calc', ('calc', (_d('1', 'px'), '+', _d('-2', 'px')))),
     ('urange', ('urange', 'u+0-7f')), ('urange', ('urange', 'u+4??')), ('urange', ('urange', 'u+26')), ('urange', ('urange', 'u+a5')),
 ]
-COMPONENT_KINDS = ['ident', 'number', 'dimension', 'percentage', 'string', 'url', 'hash', 'function', 'calc', 'urange']
+COMPONENT_KINDS = ['ident', 'number', 'dimension', 'percentage', 'string', 'url', 'hash', 'function', 'function-calc', 'calc', 'urange', 'var']
 SEPARATORS = [' ', ',', '/']
 
 TYPESELS = [('none', None), ('type', (None, 'a')), ('universal', (None, '*')), ('type-upper', (None, 'DIV')), ('ns-type', ('p', 'a')), ('no-ns-type', ('', 'a')),
@@ -1455,7 +1466,7 @@ def enumerate_values(tier):
         for (k1, c1), (k2, c2) in itertools.product(COMPONENTS, repeat=2):
             for sep in SEPARATORS:
                 out.append(('pairx:%s%s%s' % (k1, sep, k2), V(c1, sep, c2)))
-        for k1, k2, k3 in itertools.product(COMPONENT_KINDS, repeat=3):
+        for k1, k2, k3 in itertools.product([k for k in COMPONENT_KINDS if k not in ('function-calc', 'var')], repeat=3):
             for s1, s2 in itertools.product(SEPARATORS, repeat=2):
                 out.append(('triple:%s%s%s%s%s' % (k1, s1, k2, s2, k3), V(rep[k1], s1, rep[k2], s2, rep[k3])))
     else:
@@ -1502,11 +1513,29 @@ def enumerate_selectors(tier):
     return out
 
 
+SAME_TYPE_MEDIA = [
+    # MediaList removes duplicates of SIMPLE media types only (C17): queries of one media type that differ in their features, or in only/not, all stay
+    ('same-type', ((None, 'screen', (('color', None),)), (None, 'screen', (('min-width', _d('100', 'px')),)))),
+    ('same-type', ((None, 'screen', (('min-width', _d('100', 'px')),)), (None, 'screen', (('min-width', _d('200', 'px')),)), (None, 'screen', (('color', None), ('max-width', _d('1', 'em')))))),
+    ('same-type', ((None, 'tv', (('color', None),)), (None, 'tv', (('monochrome', None),)), (None, 'print', ()))),
+    ('same-type', ((None, 'print', ()), (None, 'tv', (('color', None),)), (None, 'tv', (('monochrome', None),)))),
+    ('same-type-qualifier', (('not', 'screen', ()), ('only', 'screen', ()), (None, 'screen', (('color', None),)))),
+    ('same-type-qualifier', ((None, 'screen', ()), ('only', 'screen', (('color', None),)), ('not', 'screen', (('color', None),)))),
+    ('all-feature', ((None, 'all', (('color', None),)), (None, 'print', ()))),
+    ('all-feature', ((None, 'print', ()), (None, 'all', (('min-width', _d('100', 'px')),)), (None, 'screen', ()))),
+    ('all-feature', ((None, 'all', (('color', None),)), (None, 'all', (('monochrome', None),)))),
+    ('all-feature', (('only', 'all', ()), (None, 'print', ()))),
+]
+
+
 def enumerate_media(tier):
-    """[(label, media list)]: lists of distinct media types ('all' only alone: MediaList canonicalises those, C17)"""
+    """[(label, media list)]: lists of distinct SIMPLE media types ('all' alone only alone: MediaList canonicalises those, C17), plus lists whose
+    queries share a media type but are not simple (features, only/not) - those must all be kept"""
     out = []
     for k, q in MEDIA_QUERIES:
         out.append(('mq:' + k, (q,)))
+    for k, m in SAME_TYPE_MEDIA:
+        out.append(('mqsame:' + k, m))
     qs = [(k, q) for k, q in MEDIA_QUERIES if q[1] != 'all']
     seen = set()
     for (k1, q1), (k2, q2) in itertools.product(qs, repeat=2):
@@ -1613,6 +1642,8 @@ def enumerate_sheets(tier='quick', seed=0):
     nimp = 0
     for label, m in enumerate_media(tier):
         out.append(('media/' + label, (Media(m, [_style1()]),)))
+        if label.startswith('mqsame'):
+            out.append(('media-nested/' + label, (Media(((None, 'print', ()),), [Media(m, [_style1()])]),)))
         if tier == 'thorough' or not label.startswith('mq2') or nimp < 12:
             out.append(('import-media/' + label, (Import('a.css', m),)))
             nimp += label.startswith('mq2')
